@@ -19,24 +19,54 @@ type CaseOpts struct {
 	MaxCons int
 }
 
-// Cases enumerates the worlds of the product sweep in a fixed, simplest-first order.
+// Cases enumerates the worlds of the product sweep in a fixed, simplest-first order (materialised;
+// use Groups for the big sweeps).
 func Cases(o CaseOpts) []Case {
-	cat := gen.Catalogue(o.Tier)
-	vals := gen.ValueTexts(o.Tier)
-	thorough := o.Tier == "thorough"
 	var out []Case
+	for _, g := range Groups(o) {
+		out = append(out, g()...)
+	}
+	return out
+}
+
+// Groups returns the sweep as lazily generated groups of cases (one per catalogue entry, for
+// structure templates one per seed), so that the thorough tier never holds the whole case list.
+func Groups(o CaseOpts) []func() []Case {
+	cat := gen.Catalogue(o.Tier)
+	var groups []func() []Case
 	ncons := 0
 	for i := range cat {
 		e := &cat[i]
 		if o.OnlyFamily != "" && e.Family != o.OnlyFamily {
 			continue
 		}
-		switch e.Family {
-		case "cons":
+		if e.Family == "cons" {
 			ncons++
 			if o.MaxCons > 0 && ncons > o.MaxCons {
 				continue
 			}
+			groups = append(groups, func() []Case { return casesForEntry(e, o, -1) })
+			continue
+		}
+		for si := range e.Seeds {
+			si := si
+			groups = append(groups, func() []Case { return casesForEntry(e, o, si) })
+		}
+		if len(e.Seeds) == 0 {
+			groups = append(groups, func() []Case { return casesForEntry(e, o, -1) })
+		}
+	}
+	return groups
+}
+
+// casesForEntry generates the cases of one entry (seedIdx >= 0: only that seed of a structure template).
+func casesForEntry(e *gen.Entry, o CaseOpts, seedIdx int) []Case {
+	vals := gen.ValueTexts(o.Tier)
+	thorough := o.Tier == "thorough"
+	var out []Case
+	{
+		switch e.Family {
+		case "cons":
 			for _, v := range vals {
 				seeds := gen.ConsSeeds(v)
 				for si, s := range seeds {
@@ -78,7 +108,10 @@ func Cases(o CaseOpts) []Case {
 				}
 			}
 		case "struct":
-			for _, s := range e.Seeds {
+			for si, s := range e.Seeds {
+				if seedIdx >= 0 && si != seedIdx {
+					continue
+				}
 				out = append(out, Case{Entry: e, File: "main.tf", Text: s, Family: "seed", PosTo: -1})
 				if o.Prefixes {
 					for _, p := range gen.Prefixes(s) {
@@ -98,7 +131,7 @@ func Cases(o CaseOpts) []Case {
 					}
 				}
 			}
-			if o.Seqs && strings.HasPrefix(e.ID, "S:blocks-basic") {
+			if o.Seqs && strings.HasPrefix(e.ID, "S:blocks-basic") && seedIdx <= 0 {
 				k := 3
 				if thorough {
 					k = 5
